@@ -20,6 +20,7 @@ import (
 	"github.com/pkg/errors"
 
 	"perun.network/go-perun/log"
+	"perun.network/go-perun/simhook"
 	"polycry.pt/poly-go/sync"
 )
 
@@ -69,6 +70,7 @@ func (p *Relay) Close() error {
 // Cache enables caching of messages that don't match any consumer. They are
 // only cached if they match the given predicate.
 func (p *Relay) Cache(predicate *Predicate) {
+	simhook.Yield("relay.Cache")
 	p.mutex.Lock()
 	defer p.mutex.Unlock()
 
@@ -81,6 +83,7 @@ func (p *Relay) Cache(predicate *Predicate) {
 
 // ReleaseCache disable caching for the given predicate.
 func (p *Relay) ReleaseCache(predicate *Predicate) {
+	simhook.Yield("relay.ReleaseCache")
 	p.mutex.Lock()
 	defer p.mutex.Unlock()
 
@@ -92,6 +95,7 @@ func (p *Relay) ReleaseCache(predicate *Predicate) {
 // If the producer is closed, Subscribe returns an error.
 // Otherwise, Subscribe returns nil.
 func (p *Relay) Subscribe(c Consumer, predicate Predicate) error {
+	simhook.Yield("relay.Subscribe")
 	p.mutex.Lock()
 	defer p.mutex.Unlock()
 
@@ -119,6 +123,7 @@ func (p *Relay) Subscribe(c Consumer, predicate Predicate) error {
 
 	go func() {
 		for _, m := range cached {
+			simhook.Yield("relay.cachedDelivery")
 			c.Put(m)
 		}
 	}()
@@ -128,6 +133,7 @@ func (p *Relay) Subscribe(c Consumer, predicate Predicate) error {
 
 // Put puts an Envelope in the relay.
 func (p *Relay) Put(e *Envelope) {
+	simhook.Yield("relay.Put")
 	p.mutex.RLock()
 	defer p.mutex.RUnlock()
 
@@ -161,6 +167,7 @@ func (p *Relay) SetDefaultMsgHandler(handler func(*Envelope)) {
 }
 
 func (p *Relay) delete(c Consumer) {
+	simhook.Yield("relay.delete")
 	p.mutex.Lock()
 	defer p.mutex.Unlock()
 
